@@ -35,6 +35,19 @@ pub fn exec_sparse(st: &mut State, name: &str, t: &[&str]) -> String {
                 Err(_) => "err:from_iter".to_string(),
             };
         },
+        // from_skip <src> <k> : `try_from_iter(src.one_iter().skip(k).map(|(_, v)| v))` — a vector built from the tail of
+        // another vector's own iterator (the builder calls `size_hint`, `next_back`, then iterates forward)
+        "from_skip" => {
+            let k = parse_usize(t[2]);
+            let r = match st.objs.get(t[1]) {
+                Some(Obj::Sparse(x)) => SparseVector::try_from_iter(x.one_iter().skip(k).map(|(_, v)| v)),
+                _ => panic!("harness: from_skip: no sparse source {}", t[1]),
+            };
+            return match r {
+                Ok(v) => { let s = summary(&v); st.objs.insert(name.to_string(), Obj::Sparse(v)); s },
+                Err(_) => "err:from_iter".to_string(),
+            };
+        },
         "copy_of" => {
             let v = match st.objs.get(t[1]) {
                 Some(Obj::Bv(x)) => SparseVector::copy_bit_vec(x),
